@@ -3,6 +3,7 @@
 #include <cmath>
 #include <cstdint>
 #include <limits>
+#include <sstream>
 #include <variant>
 #include <vector>
 
@@ -61,6 +62,14 @@ struct Case {
                 cfg.max[k] = c;
             }
             for (std::size_t j = 0; j < M; ++j) cfg.default_value[j] = -1000.5f - (float)j - (float)b;
+            if (b % 4 == 3) {
+                // the way users write a cubic box: one scalar per member, broadcast by covfie::array's scalar constructor
+                V lo = pick_bound<V>(rng), hi = pick_bound<V>(rng);
+                if (hi < lo) std::swap(lo, hi);
+                cfg.min = typename field_t::coordinate_t(lo);
+                cfg.max = typename field_t::coordinate_t(hi);
+                cfg.default_value = typename field_t::output_t(-77.25f - (float)b);
+            }
             vh::set_case("%s box#%u", name.c_str(), b);
             field_t f(covfie::make_parameter_pack(std::move(cfg), std::monostate{}));
             typename field_t::view_t view(f);
@@ -165,7 +174,11 @@ static void over_array(vh::Rng & rng, unsigned nfields)
             }
         }
         const auto conf = f.backend().get_configuration();
-        typename field_t::view_t view(f);
+        // every second field is looked up through a copy that went through dump + load
+        std::stringstream ss(std::ios::in | std::ios::out | std::ios::binary);
+        f.dump(ss);
+        field_t reloaded(static_cast<std::istream &>(ss));
+        typename field_t::view_t view((fi & 1) ? reloaded : f);
         for (unsigned q = 0; q < 600; ++q) {
             typename field_t::coordinate_t c;
             bool inside = true;
